@@ -18,6 +18,12 @@ PASSIVE = tuple(x for x in os.environ.get("VF_SUITE_PASSIVE", "").split(",") if 
 
 def pytest_configure(config):
     from transactron.testing import simulator as simmod
+    try:  # no hypothesis deadlines: under machine load they end tests early (less is observed); the data stays random
+        import hypothesis
+        hypothesis.settings.register_profile("vf", deadline=None)
+        hypothesis.settings.load_profile("vf")
+    except Exception:
+        pass
 
     orig = simmod.PysimSimulator.__init__
     if PASSIVE:
